@@ -169,6 +169,37 @@ func build(cfg *CheckCfg) (*buildOut, error) {
 	overlay := map[string]string{}
 	stats := map[string]int{}
 
+	// 0. modfile
+	gm, err := os.ReadFile(filepath.Join(repoDir, "go.mod"))
+	if err != nil {
+		return nil, err
+	}
+	var mod bytes.Buffer
+	mod.Write(gm)
+	mod.WriteString("\nrequire verif/simkit v0.0.0\nreplace verif/simkit => " + filepath.Join(verifDir, "simkit") + "\n")
+	for _, r := range cfg.Require {
+		mod.WriteString("require " + r + "\n")
+	}
+	rk := make([]string, 0, len(cfg.Replace))
+	for k := range cfg.Replace {
+		rk = append(rk, k)
+	}
+	sort.Strings(rk)
+	for _, k := range rk {
+		d := cfg.Replace[k]
+		if !filepath.IsAbs(d) {
+			d = filepath.Join(verifDir, d)
+		}
+		mod.WriteString("replace " + k + " => " + d + "\n")
+	}
+	modPath := filepath.Join(bdir, "go.mod")
+	os.WriteFile(modPath, mod.Bytes(), 0o644)
+	gs, _ := os.ReadFile(filepath.Join(repoDir, "go.sum"))
+	if ex, err := os.ReadFile(filepath.Join(verifDir, "simkit", "go.sum")); err == nil {
+		gs = append(gs, ex...)
+	}
+	os.WriteFile(filepath.Join(bdir, "go.sum"), gs, 0o644)
+
 	// 1. instrumented copies
 	netshim := map[string]bool{}
 	for _, g := range cfg.NetShim {
@@ -198,12 +229,25 @@ func build(cfg *CheckCfg) (*buildOut, error) {
 			}
 		}
 	}
+	var sites map[string][]rangeSite
+	if len(mapr) > 0 {
+		var mf []string
+		for f := range mapr {
+			mf = append(mf, f)
+		}
+		sort.Strings(mf)
+		var err error
+		sites, err = loadMapRanges(mf, modPath)
+		if err != nil {
+			return nil, fmt.Errorf("map range analysis: %v", err)
+		}
+	}
 	for _, f := range files {
 		src, err := os.ReadFile(f)
 		if err != nil {
 			return nil, err
 		}
-		out, st, err := instrument(f, src, instOpts{net: netshim[f], time: timeshim[f], mapRanges: mapr[f], extra: cfg.Extra})
+		out, st, err := instrument(f, src, instOpts{net: netshim[f], time: timeshim[f], mapRanges: mapr[f], mapSites: sites[f], extra: cfg.Extra})
 		if err != nil {
 			return nil, fmt.Errorf("instrument %s: %v", f, err)
 		}
@@ -266,37 +310,6 @@ func build(cfg *CheckCfg) (*buildOut, error) {
 	ob, _ := json.MarshalIndent(map[string]interface{}{"Replace": overlay}, "", " ")
 	ovPath := filepath.Join(bdir, "overlay.json")
 	os.WriteFile(ovPath, ob, 0o644)
-
-	// 4. modfile
-	gm, err := os.ReadFile(filepath.Join(repoDir, "go.mod"))
-	if err != nil {
-		return nil, err
-	}
-	var mod bytes.Buffer
-	mod.Write(gm)
-	mod.WriteString("\nrequire verif/simkit v0.0.0\nreplace verif/simkit => " + filepath.Join(verifDir, "simkit") + "\n")
-	for _, r := range cfg.Require {
-		mod.WriteString("require " + r + "\n")
-	}
-	rk := make([]string, 0, len(cfg.Replace))
-	for k := range cfg.Replace {
-		rk = append(rk, k)
-	}
-	sort.Strings(rk)
-	for _, k := range rk {
-		d := cfg.Replace[k]
-		if !filepath.IsAbs(d) {
-			d = filepath.Join(verifDir, d)
-		}
-		mod.WriteString("replace " + k + " => " + d + "\n")
-	}
-	modPath := filepath.Join(bdir, "go.mod")
-	os.WriteFile(modPath, mod.Bytes(), 0o644)
-	gs, _ := os.ReadFile(filepath.Join(repoDir, "go.sum"))
-	if ex, err := os.ReadFile(filepath.Join(verifDir, "simkit", "go.sum")); err == nil {
-		gs = append(gs, ex...)
-	}
-	os.WriteFile(filepath.Join(bdir, "go.sum"), gs, 0o644)
 
 	// 5. compile the test binary
 	bin := filepath.Join(bdir, "test.bin")
@@ -427,8 +440,14 @@ type finding struct {
 	What     string `json:"what"`
 }
 
+// loadFindings reads /verif/known_findings.txt. Line formats:
+//
+//	known: property=<id> class=<violation class> <what fails>
+//	fixed: property=<id> <commit> <what failed>
+//
+// Only "known" lines suppress anything (exactly their violation class).
 func loadFindings() []finding {
-	f, err := os.Open(filepath.Join(verifDir, "known_findings.jsonl"))
+	f, err := os.Open(filepath.Join(verifDir, "known_findings.txt"))
 	if err != nil {
 		return nil
 	}
@@ -438,11 +457,24 @@ func loadFindings() []finding {
 	sc.Buffer(make([]byte, 1<<20), 1<<20)
 	for sc.Scan() {
 		l := strings.TrimSpace(sc.Text())
-		if l == "" || strings.HasPrefix(l, "#") {
+		if !strings.HasPrefix(l, "known:") {
 			continue
 		}
-		var fd finding
-		if json.Unmarshal([]byte(l), &fd) == nil {
+		fd := finding{Status: "known"}
+		rest := strings.Fields(strings.TrimSpace(strings.TrimPrefix(l, "known:")))
+		var what []string
+		for _, w := range rest {
+			switch {
+			case strings.HasPrefix(w, "property=") && fd.Property == "":
+				fd.Property = strings.TrimPrefix(w, "property=")
+			case strings.HasPrefix(w, "class=") && fd.Class == "":
+				fd.Class = strings.TrimPrefix(w, "class=")
+			default:
+				what = append(what, w)
+			}
+		}
+		fd.What = strings.Join(what, " ")
+		if fd.Property != "" && fd.Class != "" {
 			out = append(out, fd)
 		}
 	}
@@ -659,6 +691,9 @@ func runCheck(id, tier string) int {
 		"exhaustive":                  false,
 		"explanation":                 "seeded search over scenarios, schedules and faults; each run is one synctest bubble executing the real easegress code",
 		"traces_validated_against_impl": tot.Runs,
+	}
+	if tot.Assume == nil {
+		tot.Assume = []string{}
 	}
 	ev := map[string]interface{}{
 		"property_id": id, "tier": tier, "seed": seed, "level": "exploration", "coverage": cov,
